@@ -75,8 +75,9 @@ CLAIMED = {
          "property: pass-through, yes/no, numeric with MASK, bitmap names and bits, generic/enumerated responses with "
          "MissingResponse/ResponseError/ValueError, and str() never raising MissingResponse/ResponseError; constructors are "
          "proved to raise TypeError for every non-frame argument kind. The metaclass-built bit dictionaries are checked "
-         "exhaustively against the declared bit lists.",
-    design_ref="DESIGN.md 6 (C06)",
+         "exhaustively against the declared bit lists. BOUNDED stand-in (history): every observation of every class x 513 "
+         "outcomes natively in five evaluation orders, one of them after a caller modified earlier results in place.",
+    design_ref="DESIGN.md 6 (C06), 0.4 round 7",
     technique="contract-based deductive verification: refinement of each real response method against a spec function, "
               "z3 QF_BV",
     note=TB + "; Frame through contracts; text content unspecified (str proved total)"),
@@ -87,7 +88,9 @@ CLAIMED = {
          "event class, 10 bits of event information and (occupancy, light) decoded data that an independent transcription of "
          "IEC 62386-103 Table 3 and parts 301/303/304 gives; ambiguous events re-decoded with a map are proved structurally "
          "identical to a direct decode; the real add_type/get_type are verified for int / address-object / module arguments "
-         "over a dictionary with symbolic keys. The live event registries are compared exhaustively with the tables.",
+         "over a dictionary with symbolic keys. The live event registries are compared exhaustively with the tables. BOUNDED stand-in: "
+         "events decoded in batches, held while others are decoded, then observed and retry_decode'd, against decoding each "
+         "frame on its own.",
     design_ref="DESIGN.md 6 (C12)",
     technique="contract-based deductive verification: symbolic execution of the real decoder against a table-driven spec "
               "function, z3 QF_BV",
@@ -103,8 +106,10 @@ CLAIMED = {
          "complete finite domain; the declared memory map, overlap-freedom, lockability and mask patterns are compared "
          "exhaustively with an independently transcribed layout table. BOUNDED stand-in: number->raw->number natively on "
          "boundary and random numbers of every plain numeric value (decides when an implementation leaves integer arithmetic, "
-         "where the deductive unit is undecided).",
-    design_ref="DESIGN.md 6 (C11)",
+         "where the deductive unit is undecided). The declaration-time MASK/TMASK computation of the metaclass is checked "
+         "exhaustively for every kind of declaration (width 1..6 x signed/unsigned x mask length 0/-1) on probe values in a "
+         "scratch bank.",
+    design_ref="DESIGN.md 6 (C11), 0.4 round 7",
     technique="contract-based deductive verification: refinement against spec functions (z3 QF_BV) + exhaustive checks of the "
               "finite declaration tables",
     note=TB + "; specs/memory_layout.py is the trusted oracle of the layout clause; Decimal/float scaling compared "
@@ -183,7 +188,7 @@ CLAIMED = {
     design_ref="DESIGN.md 6 (C10), 3.7",
     technique="contract-based deductive verification: generator as procedure against an assumed unit contract with fault "
               "and variant flags, z3 QF_BV",
-    note=TB + "; unit contract contracts/units/memory.py assumed; ignore_feedback=True not claimed; the DTR0-not-advancing "
+    note=TB + "; unit contract contracts/units/memory.py assumed; with ignore_feedback=True only the conforming unit is claimed (returns, stores exactly the data, re-locks); the DTR0-not-advancing "
          "variant is applied to values up to 8 bytes"),
  "C07": dict(
     category="proof",
